@@ -25,6 +25,85 @@ def h(x):
 
 
 # ---------------------------------------------------------------------------------------------------------------
+# array reductions (MAXVAL / MINVAL / SUM of a whole array or a section): FIR's shared layers have no array-valued
+# intrinsics, so they are added HERE (own file): `(call maxval (v a))`, `(call sum (sec a (rng lo hi none)))`.
+# fir.emit_ex prints them as ordinary function references; the exporter accepts them while `reductions_exportable()` is
+# active (the tuple fir.INTRINSICS is extended for the duration of one export); the interpreter below evaluates them.
+
+REDUCTIONS = ('maxval', 'minval', 'sum')
+
+
+class RInterp(fir.Interp):
+    def eval(self, st, pos, e):
+        if h(e) == 'call' and str(e[1]) in REDUCTIONS and len(e) == 3 and h(e[2]) in ('v', 'sec'):
+            a = e[2]
+            x = str(a[1])
+            bs = self.bounds_of(st, x)
+            if bs is None:
+                raise fir._Fail()
+            if h(a) == 'v':
+                shape = [max(0, hi - lo + 1) for lo, hi in bs]
+                vals = [self.read_at(st, x, [b[0] + k for b, k in zip(bs, q)]) for q in fir._positions(shape)]
+            else:
+                shape = self.sec_shape(st, bs, a[2:])
+                vals = [self.read_at(st, x, self.eval_sec(st, pos, bs, a[2:], q)) for q in fir._positions(shape)]
+            name = str(e[1])
+            if name == 'sum':
+                acc = Fraction(0)
+                for v in vals:
+                    acc = self.binop('add', acc, v)
+                return acc
+            if not vals:
+                raise fir._Fail()
+            acc = vals[0]
+            for v in vals[1:]:
+                acc = self.intrinsic('max' if name == 'maxval' else 'min', [acc, v])
+            return acc
+        return super().eval(st, pos, e)
+
+
+def interp(prog, inputs, fuel=100000, stats=None):
+    """fir.interp with array reductions"""
+    return RInterp(prog, stats).run_main(inputs, fuel)
+
+
+class reductions_exportable:
+    def __enter__(self):
+        self.saved = fir.INTRINSICS
+        fir.INTRINSICS = tuple(fir.INTRINSICS) + REDUCTIONS
+
+    def __exit__(self, *a):
+        fir.INTRINSICS = self.saved
+
+
+def recase(text, names, seed):
+    """random letter case for every OCCURRENCE of every name in ``names`` (Fortran is case insensitive; IFS sources are
+    mixed case); deterministic in ``seed``; seed 0 = unchanged"""
+    import re
+    if not seed:
+        return text
+    rng = _random.Random(seed)
+    pat = re.compile(r'(?<![A-Za-z0-9_.])(' + '|'.join(sorted(map(re.escape, names), key=len, reverse=True)) + r')(?![A-Za-z0-9_])',
+                     re.I)
+
+    def one(m):
+        w = m.group(0)
+        r = rng.random()
+        if r < 0.3:
+            return w.upper()
+        if r < 0.5:
+            return w.lower()
+        if r < 0.7:
+            return w.capitalize()
+        return ''.join(c.upper() if rng.random() < 0.5 else c.lower() for c in w)
+    return '\n'.join(pat.sub(one, line) for line in text.split('\n'))
+
+
+def unit_names(u):
+    return {str(u[1])} | {str(d[1]) for d in u[3]}
+
+
+# ---------------------------------------------------------------------------------------------------------------
 # dimension configurations (names the SCC transformations are told about)
 
 DIMCFGS = [
@@ -48,7 +127,7 @@ def dims_of(dc):
 DEFAULT_GCFG = dict(
     n_kernels=(1, 3),          # kernels in the tree (kern1 called by the driver; others nested)
     items=(2, 6),              # top-level items per kernel
-    weights=dict(scal=2, hloop=6, vloop=5, hvloop=1, vecnot=2, call=4, reduce=2, cond=2),
+    weights=dict(scal=2, hloop=6, vloop=5, hvloop=1, vecnot=2, call=4, reduce=2, cond=2, hreduce=0),
     partial_range=0.2,         # driver uses start=2 and/or end=n-1
     driver_loop=0.25,          # driver has its own horizontal loop inside the block loop
     two_calls=0.25,
@@ -96,6 +175,7 @@ class KernelGen:
         self.tmp_undef = []  # (name, kind) local temporaries not yet defined
         self.consts = []    # (name, extent) of (size, const) temporaries that are defined
         self.nscal = 0
+        self.full_range = False
 
     # ---- declarations
     def setup(self):
@@ -123,6 +203,10 @@ class KernelGen:
             else:
                 self.decls.append(decl(x, 'real', 'none', [(ilit(1), S), (ilit(1), ilit(2))]))
             self.tmp_undef.append((x, kind))
+        self.forced_t2 = None
+        if self.g.get('force_t2') and not self.callees and not self.flat:
+            self.forced_t2 = 'ztq'
+            self.decls.append(decl('ztq', 'real', 'none', [(ilit(1), S), (ilit(1), NZ)]))
         self.buffer = None
         if self.callees and not self.flat:
             # a temporary reserved for buffering values across the first call (defined before, read after the call)
@@ -338,6 +422,47 @@ class KernelGen:
         self.body.append(do(dc['jk'], ilit(1), V(dc['nz']),
                             [self.hloop([assign(IDX(s, JL), BIN('add', IDX(s, JL), BIN('mul', IDX(a, JL, JK), rlit(rng.choice(POW2)))))])]))
 
+    def item_hreduce(self, force_local=False):
+        """horizontal reduction by an array intrinsic on a whole array / section, between two horizontal loops:
+        `zs = MAXVAL(zt)`, `SUM(zt(:))`, `MINVAL(zt(start:end))`; the result is used in the following loop"""
+        rng, dc = self.rng, self.dc
+        if not (self.wr1 or self.wr2):
+            return
+        JL = V(dc['index'])
+        und1 = [t for t in self.tmp_undef if t[1] == 't1']
+        local = False
+        if force_local and not und1:
+            self.nred = getattr(self, 'nred', 0) + 1
+            x = f'ztr{self.nred}'
+            self.decls.append(decl(x, 'real', 'none', [(ilit(1), V(dc['size']))]))
+            self.tmp_undef.append((x, 't1'))
+            und1 = [(x, 't1')]
+        if und1 and (force_local or rng.random() < 0.7 or not self.arr1):
+            t = rng.choice(und1)
+            self.tmp_undef.remove(t)
+            src = [IDX(a, JL) for a in self.arr1] + [IDX(a, JL, ilit(1)) for a in self.arr2]
+            e0 = BIN('add', BIN('mul', rng.choice(src), rlit(rng.choice(POW2))), rlit(rng.choice(LITS))) if src else \
+                self.expr(dict(jl=True, jk=None), 1)
+            self.body.append(self.hloop([assign(IDX(t[0], JL), e0)]))
+            self.arr1.append(t[0])
+            self.wr1.append(t[0])
+            a, local = t[0], True
+        elif self.arr1:
+            a = rng.choice(self.arr1)
+            local = a.startswith('zt')
+        else:
+            return
+        form = rng.choice(('bare', 'bare', 'range', 'range1') + (('colon',) if self.g.get('colon_form') else ()))
+        if local and form != 'range':   # bare, (:), (1:n)
+            self.full_range = True      # the temporary is only filled inside the horizontal range
+        arg = V(a) if form == 'bare' else SEC(a, RNG()) if form == 'colon' else SEC(a, RNG(ilit(1), V(dc['size']))) \
+            if form == 'range1' else SEC(a, RNG(V(dc['lo']), V(dc['hi'])))
+        zs = self.new_scalar()
+        self.body.append(assign(V(zs), CALL(rng.choice(REDUCTIONS), arg)))
+        self.scal.append(zs)
+        tgt = self.target(dict(jl=True, jk=None))
+        self.body.append(self.hloop([assign(tgt, BIN('add', BIN('mul', tgt, rlit(Fraction(1, 2))), V(zs)))]))
+
     def item_cond(self):
         """a conditional on loop-invariant data around a horizontal loop"""
         rng = self.rng
@@ -350,11 +475,11 @@ class KernelGen:
         c = BIN(rng.choice(('gt', 'lt')), V(rng.choice(self.scal)), rlit(rng.choice(LITS)))
         self.body.append(ifte(c, [self.hloop(body)], []))
 
-    def item_call(self):
+    def item_call(self, g=None):
         rng, dc = self.rng, self.dc
         if not self.callees:
             return
-        g = rng.choice(self.callees)
+        g = g or rng.choice(self.callees)
         args = [V(dc['lo']), V(dc['hi']), V(dc['size']), V(dc['nz'])]
         used = set()
         # a temporary that buffers values across the call (defined before, read after: must not be demoted)
@@ -367,7 +492,10 @@ class KernelGen:
             buf = rng.choice(und1)
             self.tmp_undef.remove(buf)
         if buf is not None:
-            self.body.append(self.hloop([assign(IDX(buf[0], V(dc['index'])), self.expr(dict(jl=True, jk=None), 1))]))
+            src = [IDX(a, V(dc['index'])) for a in self.arr1] + [IDX(a, V(dc['index']), ilit(1)) for a in self.arr2]
+            # column dependent value (so that a wrongly demoted buffer is visible)
+            self.body.append(self.hloop([assign(IDX(buf[0], V(dc['index'])),
+                                                BIN('add', BIN('mul', rng.choice(src), rlit(rng.choice(POW2))), rlit(rng.choice(LITS))))]))
             self.arr1.append(buf[0])
             self.wr1.append(buf[0])
         locals_ = {str(d[1]) for d in self.decls if str(d[3]) == 'none'}
@@ -394,8 +522,17 @@ class KernelGen:
     def build(self):
         rng = self.rng
         self.setup()
+        if self.forced_t2:
+            dc = self.dc
+            JL, JK = V(dc['index']), V(dc['jk'])
+            self.body.append(do(dc['jk'], ilit(1), V(dc['nz']),
+                                [self.hloop([assign(IDX('ztq', JL, JK), self.expr(dict(jl=True, jk='var', jkmin=1), 1))])]))
+            self.arr2.append('ztq')
+            self.wr2.append('ztq')
         n = rng.randint(*self.g['items'])
         w = dict(self.g['weights'])
+        if not self.flat and rng.random() < self.g.get('force_hreduce', 0.0):
+            self.item_hreduce(force_local=True)
         if self.flat:
             w = dict(hloop=1)
         kinds = list(w)
@@ -406,12 +543,27 @@ class KernelGen:
             self.item_hloop()
         if self.callees and not any(h(s) == 'callsub' for s in self.body):
             self.item_call()
+        if self.g.get('call_all'):
+            for g_ in self.callees:
+                if not any(h(s) == 'callsub' and str(s[1]) == g_['name'] for s in iter_all(self.body)):
+                    self.item_call(g_)
         # every kernel touches its first inout array so that it is observable
         if self.wr2 or self.wr1:
             self.item_hloop()
         args = [self.dc['lo'], self.dc['hi'], self.dc['size'], self.dc['nz']] + [a[0] for a in self.sig['arrays']] \
             + ([self.sig['scalar']] if self.sig['scalar'] else [])
         return [A('unit'), A(self.name), [A(a) for a in args], self.decls, self.body]
+
+
+def iter_all(stmts):
+    for s in stmts:
+        yield s
+        k = h(s)
+        if k == 'do':
+            yield from iter_all(s[5])
+        elif k == 'if':
+            yield from iter_all(s[2])
+            yield from iter_all(s[3])
 
 
 def gen_sig(rng, name):
@@ -429,16 +581,27 @@ def gen_sig(rng, name):
 def gen_tree_candidate(rng, gcfg):
     dci = rng.randrange(len(DIMCFGS))
     dc = DIMCFGS[dci]
-    nk = rng.choice((1, 2, 2, 3)) if tuple(gcfg['n_kernels']) == (1, 3) else rng.randint(*gcfg['n_kernels'])
+    diamond = gcfg.get('shape') == 'diamond'
+    nk = 4 if diamond else rng.choice((1, 2, 2, 3)) if tuple(gcfg['n_kernels']) == (1, 3) else rng.randint(*gcfg['n_kernels'])
     sigs = [gen_sig(rng, f'kern{k + 1}') for k in range(nk)]
+    if diamond:
+        # every kernel of the diamond gets the array signature of kern1 (renamed), so that every edge can be realised by a call
+        for k in range(1, nk):
+            sigs[k]['arrays'] = [(f'p{k + 1}' + x[2:], rank, intent) for (x, rank, intent) in sigs[0]['arrays']]
     units = []
+    full_range = False
     for k in range(nk):
         callees = sigs[k + 1:] if k + 1 < nk else []
-        if callees and k == 0 and nk == 3 and rng.random() < 0.5:
+        if diamond:
+            # kern1 -> {kern2, kern3} -> kern4 (shared nested callee with temporaries), every edge realised by a call
+            callees = [sigs[1], sigs[2]] if k == 0 else [sigs[3]] if k in (1, 2) else []
+        elif callees and k == 0 and nk == 3 and rng.random() < 0.5:
             callees = sigs[1:2]          # chain kern1 -> kern2 -> kern3
         flat = (not callees) and rng.random() < gcfg.get('flat', 0.0)
-        kg = KernelGen(rng, dc, sigs[k]['name'], sigs[k], callees, gcfg, flat=flat)
+        kg = KernelGen(rng, dc, sigs[k]['name'], sigs[k], callees, dict(gcfg, call_all=True, force_t2=True) if diamond else gcfg,
+                       flat=flat)
         units.append(kg.build())
+        full_range = full_range or kg.full_range
     # driver
     S, NZ, NB, B = V(dc['size']), V(dc['nz']), V(dc['nb']), V(dc['b'])
     s1 = sigs[0]
@@ -457,7 +620,7 @@ def gen_tree_candidate(rng, gcfg):
     decls += [decl(dc['b'], 'int'), decl(dc['lo'], 'int'), decl(dc['hi'], 'int')]
     body = []
     lo_e, hi_e = ilit(1), S
-    if rng.random() < gcfg['partial_range']:
+    if rng.random() < gcfg['partial_range'] and not full_range:
         if rng.random() < 0.5:
             lo_e = ilit(2)
         else:
@@ -551,7 +714,7 @@ def gen_tree(rng, gcfg=None, inputs=3, max_extent=4):
         ps = seq_assoc(prog)
         for i in ins:
             stats = {}
-            r = fir.interp(ps, i, stats=stats)
+            r = interp(ps, i, stats=stats)
             if r[0] != 'ok' or not fir.exact_in_hardware(stats):
                 ok = False
                 break
@@ -590,7 +753,7 @@ def build_pipeline(name, dc):
     raise ValueError(name)
 
 
-def apply_scheduler(prog, make_pipeline, extra_files=None, keep=None):
+def apply_scheduler(prog, make_pipeline, extra_files=None, keep=None, caseseed=0):
     """write one file per unit, run the real Scheduler over the tree with the given pipeline / transformation list,
     return {unit name: transformed Subroutine} (in program order) and the scheduler"""
     from loki.batch import Scheduler, SchedulerConfig
@@ -600,10 +763,13 @@ def apply_scheduler(prog, make_pipeline, extra_files=None, keep=None):
     d = Path(tempfile.mkdtemp(prefix='c37_'))
     try:
         names = []
+        allnames = set()
         for u in prog[2:]:
+            allnames |= unit_names(u)
+        for k, u in enumerate(prog[2:]):
             name = str(u[1])
             names.append(name)
-            (d / f'{name}.F90').write_text('\n'.join(fir.emit_unit(u)) + '\n')
+            (d / f'{name}.F90').write_text(recase('\n'.join(fir.emit_unit(u)), allnames, caseseed and caseseed * 31 + k) + '\n')
         for fn, text in (extra_files or {}).items():
             (d / fn).write_text(text)
         config = {'default': {'mode': 'idem', 'role': 'kernel', 'expand': True, 'strict': True},
@@ -625,9 +791,9 @@ def apply_scheduler(prog, make_pipeline, extra_files=None, keep=None):
             shutil.rmtree(d, ignore_errors=True)
 
 
-def transform(prog, dci, pipeline):
+def transform(prog, dci, pipeline, caseseed=0):
     dc = DIMCFGS[dci]
-    return apply_scheduler(prog, lambda: [build_pipeline(pipeline, dc)])
+    return apply_scheduler(prog, lambda: [build_pipeline(pipeline, dc)], caseseed=caseseed)
 
 
 def positional_calls(routines):
@@ -658,7 +824,8 @@ def positional_calls(routines):
 
 def export_tree(routines, main='driver'):
     positional_calls(routines)
-    units = [fir._x_unit(r) for r in routines.values()]
+    with reductions_exportable():
+        units = [fir._x_unit(r) for r in routines.values()]
     return fir.normalize([A('program'), A(main)] + units)
 
 
@@ -868,13 +1035,13 @@ def drop_nops(unit):
     return fir.canon(p)[2]
 
 
-def real_flat(cfg, unit):
+def real_flat(cfg, unit, caseseed=0):
     """the real SCCBase + SCCDevector + SCCDemote + SCCRevector chain on one kernel (role='kernel'), exported"""
     from loki import Dimension
     from loki.transformations import single_column as sc
     jl, lo, hi, size = cfg
     hor = Dimension(name='horizontal', size=size, index=jl, bounds=(lo, hi))
-    sf = fir.parse_fortran('\n'.join(fir.emit_unit(unit)) + '\n')
+    sf = fir.parse_fortran(recase('\n'.join(fir.emit_unit(unit)), unit_names(unit), caseseed) + '\n')
     r = sf.subroutines[0]
     for t in (sc.SCCBaseTransformation(horizontal=hor), sc.SCCDevectorTransformation(horizontal=hor),
               sc.SCCDemoteTransformation(horizontal=hor), sc.SCCRevectorTransformation(horizontal=hor)):
@@ -905,7 +1072,7 @@ def gen_flat(rng):
             i = [[r[0], I(lo_v)] if str(r[0]) == dc['lo'] else ([r[0], I(hi_v)] if str(r[0]) == dc['hi'] else r) for r in i]
             i = fir.canon(i)
             st = {}
-            res = fir.interp(prog, i, stats=st)
+            res = interp(prog, i, stats=st)
             if res[0] != 'ok' or not fir.exact_in_hardware(st):
                 ok = False
                 break
@@ -919,19 +1086,45 @@ def gen_flat(rng):
 # the property
 
 K_SHOIST = 'shoist-hoisted-argument-order'
+K_COLON = 'reduction-over-colon-section-not-a-separator'
+SEQ_PIPELINES = ('svector', 'shoist')
+
+
+def colon_class_listed():
+    """inputs of the class K_COLON are generated only once the class is listed as an open finding"""
+    from ..core import load_known
+    try:
+        return any(k.get('property') == 'C37' and k.get('class') == K_COLON and k.get('status', 'open') == 'open'
+                   for k in load_known())
+    except Exception:       # pylint: disable=broad-except
+        return False
+
+
+def has_colon_reduction(prog):
+    """some kernel contains `MAXVAL|MINVAL|SUM(a(:))` (decidable on the request)"""
+    found = []
+
+    def fe(e):
+        if h(e) == 'call' and str(e[1]) in REDUCTIONS and len(e) == 3 and h(e[2]) == 'sec' \
+                and all(h(d) == 'rng' and all(str(x) == 'none' for x in d[1:4]) for d in e[2][2:]):
+            found.append(1)
+        return e
+    fir.map_program(fir.canon(prog), fe=fe)
+    return bool(found)
 K_EMPTY = 'empty-range-undefined-scalar'
 
 _cache = {}
 
 
 def _transformed(req):
-    key = dumps(req[:4])
+    caseseed = int(str(req[6])) if len(req) > 6 else 0
+    key = dumps(req[:4] + [caseseed])
     if key not in _cache:
         if len(_cache) > 8:
             _cache.clear()
         pipeline, dci, prog = str(req[1]), int(str(req[2])), req[3]
         try:
-            routines, sched = transform(prog, dci, pipeline)
+            routines, sched = transform(prog, dci, pipeline, caseseed=caseseed)
             _cache[key] = ('ok', routines)
         except Exception as e:      # pylint: disable=broad-except
             _cache[key] = ('raise', f'{type(e).__name__}: {str(e)[:160]}')
@@ -958,9 +1151,9 @@ def check_tree(prog, ins, routines, pipeline, gf, flags=(), prelude='', text_onl
         p1s = seq_assoc(p1)
         for i in ins:
             st = {}
-            r0 = fir.interp(ps, i, stats=st)
+            r0 = interp(ps, i, stats=st)
             refs.append((r0, st))
-            r1 = fir.interp(p1s, i)
+            r1 = interp(p1s, i)
             d = fir.compare_results(r0, r1)
             if d:
                 cls = K_EMPTY if (empty_range(prog, i) and r0[0] == 'ok' and r1[0] == 'error') else None
@@ -1014,24 +1207,34 @@ class C37(Prop):
     rule = ('scc stream: generated IFS-style driver/kernel call trees (3 dimension-name configurations; block loop, 1-3 kernels, nested '
             'calls, vertical loops inside/outside horizontal loops, vector notation, temporaries of shapes (n), (n,nz), (n,2), private '
             'scalars, conditionals, reductions, partial and empty horizontal ranges), one pipeline variant per case, 3 input sets; '
-            'flat stream: single kernels, 80% in the flat class of the model; distinct = distinct request')
+            'flat stream: single kernels, 80% in the flat class of the model; strengthening round: random letter case per occurrence of '
+            'every name in the sources given to Loki (request field caseseed), a reserved temporary buffering values across a '
+            'nested-kernel call, horizontal reductions MAXVAL/MINVAL/SUM on whole arrays and sections between two horizontal loops '
+            '(vector-type pipelines), diamond call trees; distinct = distinct request')
     trusted_base = ['harness/fir.py exporter and interpreter', 'gfortran 12.2 (thorough tier)']
     assumptions = ['documented SCC precondition: no dependencies across the horizontal dimension (generated trees satisfy it)']
     extra_obligations = ['flat-kernel chain correspondence']
 
     def classes(self):
-        return [K_SHOIST, K_EMPTY]
+        return [K_SHOIST, K_EMPTY, K_COLON]
 
     def gen(self, rng, tier):
         n_scc, n_flat, gf = {'quick': (14, 10, 0), 'thorough': (60, 40, 1), 'search': (30, 20, 0)}.get(tier, (14, 10, 0))
         pipes = list(PIPELINES)
+        colon = colon_class_listed()
         for k in range(n_flat):
             cfg, unit, ins = gen_flat(rng)
-            yield Case([A('flat'), [A(x) for x in cfg], unit, ins], stream='flat', nontrivial=flat_kernel(cfg, fir.canon(unit)))
+            cs = rng.randint(1, 10 ** 6) if k % 2 else 0
+            yield Case([A('flat'), [A(x) for x in cfg], unit, ins, cs], stream='flat', nontrivial=flat_kernel(cfg, fir.canon(unit)))
         for k in range(n_scc):
-            dci, prog, ins = gen_tree(rng)
             pl = pipes[k % len(pipes)] if k < 2 * len(pipes) else rng.choice(pipes)
-            yield Case([A('scc'), A(pl), dci, prog, ins, gf], stream=pl)
+            # horizontal reductions by array intrinsics only for the vector-type pipelines (a sequential kernel sees one
+            # column: "Vector reductions are not applicable to sequential routines", revector.py)
+            g = dict(weights=dict(hreduce=2), colon_form=colon, force_hreduce=0.5) if pl not in SEQ_PIPELINES else None
+            dci, prog, ins = gen_tree(rng, g)
+            # mixed letter case per occurrence of every name (IFS style) in two of three cases
+            cs = rng.randint(1, 10 ** 6) if k % 3 else 0
+            yield Case([A('scc'), A(pl), dci, prog, ins, gf, cs], stream=pl)
 
     def impl(self, req):
         kind = str(req[0])
@@ -1042,7 +1245,7 @@ class C37(Prop):
             unit = fir.canon(req[2])
             if not flat_kernel(cfg, unit):
                 return [A('result'), A('excluded')]
-            return [A('result'), drop_nops(real_flat(cfg, unit))]
+            return [A('result'), drop_nops(real_flat(cfg, unit, int(str(req[4])) if len(req) > 4 else 0))]
         raise ValueError('bad request')
 
     def oracle(self, req):
@@ -1052,13 +1255,13 @@ class C37(Prop):
             unit = fir.canon(req[2])
             ins = req[3]
             try:
-                u1 = real_flat(cfg, unit)
+                u1 = real_flat(cfg, unit, int(str(req[4])) if len(req) > 4 else 0)
             except Exception as e:      # pylint: disable=broad-except
                 return [Failure(f'SCC chain raised {type(e).__name__}: {str(e)[:160]}', None)]
             p0 = [A('program'), unit[1], unit]
             p1 = [A('program'), unit[1], u1]
             for i in ins:
-                r0, r1 = fir.interp(p0, i), fir.interp(p1, i)
+                r0, r1 = interp(p0, i), interp(p1, i)
                 d = fir.compare_results(r0, r1)
                 if d:
                     return [Failure(f'flat kernel: original vs transformed differ: {d}', None)]
@@ -1066,16 +1269,19 @@ class C37(Prop):
         if kind == 'scc':
             pipeline, dci, prog, ins = str(req[1]), int(str(req[2])), req[3], req[4]
             gf = int(str(req[5])) if len(req) > 5 else 0
-            if len(req) != 6 or h(prog) != 'program':
+            if len(req) not in (6, 7) or h(prog) != 'program':
                 raise ValueError('malformed request')
             ps = seq_assoc(prog)
             for i in ins:
-                if fir.interp(ps, i)[0] != 'ok':
+                if interp(ps, i)[0] != 'ok':
                     raise ValueError('the original call tree does not run on its inputs (malformed request)')
             st, val = _transformed(req)
             if st == 'raise':
                 return [Failure(f'pipeline {pipeline} raised {val}', None)]
-            return [Failure(w, c) for w, c in check_tree(prog, ins, val, pipeline, gf)]
+            fs = check_tree(prog, ins, val, pipeline, gf)
+            if pipeline not in SEQ_PIPELINES and has_colon_reduction(prog):
+                fs = [(w, K_COLON if c is None and w.startswith(('interpreter:', 'gfortran:')) else c) for w, c in fs]
+            return [Failure(w, c) for w, c in fs]
         raise ValueError('bad request')
 
     def shrink_candidates(self, req):
